@@ -49,16 +49,16 @@ RUN_PROFILES = {
 }
 
 PROPS = {
-    "C01": dict(kind="run", proj="P_C01", mon="mon_C01", property_files=("Refinement",),
+    "C01": dict(kind="run", proj="P_C01", mon="mon_C01", property_files=("Refinement", "RefinementTransfer"),
                 profiles=["default", "imm", "sync", "loops", "parallel", "parloop", "react", "react_loops"],
                 quick=240, thorough=6000, finding_profiles=["react_all", "parloop_all"]),
-    "C02": dict(kind="run", proj="P_seq", mon="mon_true", property_files=("C02net", "Refinement"),
+    "C02": dict(kind="run", proj="P_seq", mon="mon_true", property_files=("C02net", "Refinement", "RefinementTransfer"),
                 profiles=["blocks", "default", "imm", "loops", "react_loops"], quick=240, thorough=6000,
                 finding_profiles=["parloop_all", "parloop_mix"]),
-    "C03": dict(kind="run", proj="P_set", mon="mon_true", property_files=("Refinement",),
+    "C03": dict(kind="run", proj="P_set", mon="mon_true", property_files=("Refinement", "RefinementTransfer"),
                 profiles=["parallel", "parloop", "react"], quick=240, thorough=6000,
                 finding_profiles=["parloop_all"]),
-    "C04": dict(kind="run", proj="P_C04", mon="mon_C04ctx", property_files=("C04ctx", "Refinement"),
+    "C04": dict(kind="run", proj="P_C04", mon="mon_C04ctx", property_files=("C04ctx", "Refinement", "RefinementTransfer"),
                 profiles=["cond", "default", "react_loops"], quick=240, thorough=6000,
                 finding_profiles=["parloop_all"]),
     "C05": dict(kind="run", proj="P_seq", mon="mon_true",
@@ -66,21 +66,21 @@ PROPS = {
                 finding_profiles=["parloop_all", "parloop_mix"]),
     "C06": dict(kind="run", proj="P_set", mon="mon_true",
                 profiles=["parloop", "react_parloop"], quick=240, thorough=6000, finding_profiles=["parloop_all", "parloop_mix"]),
-    "C07": dict(kind="run", proj="P_ids", mon="mon_C07", property_files=("Refinement",),
+    "C07": dict(kind="run", proj="P_ids", mon="mon_C07", property_files=("Refinement", "RefinementTransfer"),
                 profiles=["default", "imm", "parallel", "loops", "parloop", "react", "react_loops", "uuid_loops_calls"],
                 quick=240, thorough=6000, finding_profiles=["react_all", "parloop_all"]),
-    "C08": dict(kind="run", proj="P_C08", mon="mon_C08",
+    "C08": dict(kind="run", proj="P_C08", mon="mon_C08", property_files=("RefinementTransfer",),
                 profiles=["junk", "react_junk", "react"], quick=240, thorough=6000,
                 finding_profiles=["parloop_all"]),
-    "C14": dict(kind="run", proj="P_ids", mon="mon_C14", property_files=("C14net",),
+    "C14": dict(kind="run", proj="P_ids", mon="mon_C14", property_files=("C14net", "RefinementTransfer"),
                 profiles=["uuid", "uuid_cond_loops", "uuid_loops_calls", "loops", "parloop", "parallel", "react_loops", "ids_junk"], quick=240, thorough=6000,
                 finding_profiles=["parloop_all"]),
     "C15": dict(kind="run", proj="P_C15", mon="mon_true", property_files=("C15net",),
                 profiles=["params", "params_indexed", "hostile_append", "hostile_clear", "hostile_replace"],
                 quick=240, thorough=6000, finding_profiles=["parloop_all"]),
-    "C17": dict(kind="run", proj="P_C17", mon="mon_C17", property_files=("C20net", "C17obs"), extra_kinds=("obs",), py_monitor="petri_net_notices",
+    "C17": dict(kind="run", proj="P_C17", mon="mon_C17", property_files=("C20net", "C17obs", "RefinementTransfer"), extra_kinds=("obs",), py_monitor="petri_net_notices",
                 profiles=["observers", "observers_loops"], quick=200, thorough=5000, finding_profiles=["observers_parloop"]),
-    "C20": dict(kind="run", proj="P_C20", mon="mon_C20", property_files=("C20net", "C20reg"), extra_kinds=("reg",),
+    "C20": dict(kind="run", proj="P_C20", mon="mon_C20", property_files=("C20net", "C20reg", "RefinementTransfer"), extra_kinds=("reg",),
                 profiles=["listeners"], quick=200, thorough=5000, finding_profiles=["listeners_imm"]),
     # C13: expressions in isolation (kind expr) + guards evaluated repeatedly in running orders
     # (Conditions and loops re-evaluated against current values), compared on oracle queries
